@@ -49,7 +49,7 @@ inputs:
 orchestration:
   type: byKeySet
   keys: [app]
-  tag: t.$app
+  tag: TAGTEMPLATE
 metricKeys: METRICKEYS
 transformations:
   - type: drop
@@ -103,22 +103,23 @@ type op struct {
 }
 
 type params struct {
-	name       string
-	prop       string
-	conns      [][]op // per connection, generation 0
-	conns1     [][]op // connections of generation 1 (new traffic while the backlog of generation 0 is recovered)
-	gen0Down   bool   // the upstream is down during generation 0: everything stays queued
-	gens       int    // generations (the last one is healthy and drained)
-	chunkRecs  int
-	memCap     int
-	opt        fakeup.Options
-	metricKeys string // YAML list, default [host]
-	reload     string // "" = no reload; else the new configuration variant written before SIGHUP (Reloader level, C17)
-	oldDown    bool   // the upstream of the pipelines created before the reload is down (everything stays queued)
-	ackWindow  int    // ForwarderMaxPendingChunksForAck (default 2)
-	flushAlt   bool   // a Flush() after each line is an explorer choice
-	advances   int
-	delayB     bool
+	name        string
+	prop        string
+	conns       [][]op // per connection, generation 0
+	conns1      [][]op // connections of generation 1 (new traffic while the backlog of generation 0 is recovered)
+	gen0Down    bool   // the upstream is down during generation 0: everything stays queued
+	gens        int    // generations (the last one is healthy and drained)
+	chunkRecs   int
+	memCap      int
+	opt         fakeup.Options
+	metricKeys  string // YAML list, default [host]
+	reload      string // "" = no reload; else the new configuration variant written before SIGHUP (Reloader level, C17)
+	oldDown     bool   // the upstream of the pipelines created before the reload is down (everything stays queued)
+	ackWindow   int    // ForwarderMaxPendingChunksForAck (default 2)
+	tagTemplate string // orchestration tag template (default t.$app)
+	flushAlt    bool   // a Flush() after each line is an explorer choice
+	advances    int
+	delayB      bool
 }
 
 type lineRec struct {
@@ -251,6 +252,22 @@ func (w *world) newConsumerWith(parentLogger logger.Logger, decoder base.ChunkDe
 			return
 		}
 		w.trans = append(w.trans, transmit{env: opt.Name, conn: c.K, chunk: chunk.ID, stamps: stamps, tag: tag})
+		if w.p.prop == "C06" {
+			// every chunk holds records of one key set only and carries the tag expanded from THAT key set
+			tagT := w.p.tagTemplate
+			if tagT == "" {
+				tagT = "t.$app"
+			}
+			for _, st := range stamps {
+				for _, l := range w.lines {
+					if l.stamp == st {
+						if want := strings.ReplaceAll(tagT, "$app", l.app); tag != want {
+							w.violate("tag:not-the-records-own-key", "chunk %s delivers record %s of key set app=%s under tag %q, the template expands to %q", chunk.ID, st, l.app, tag, want)
+						}
+					}
+				}
+			}
+		}
 		for i, s := range stamps {
 			if prev, ok := w.jsonOf[s]; ok {
 				if prev != recs[i] {
@@ -346,7 +363,11 @@ func makeRun(p params) explore.RunFunc {
 		if mk == "" {
 			mk = "[host]"
 		}
-		cfgText := strings.ReplaceAll(strings.ReplaceAll(configTemplate, "ROOT", filepath.Join(w.root, "q")), "METRICKEYS", mk)
+		tagT := p.tagTemplate
+		if tagT == "" {
+			tagT = "t.$app"
+		}
+		cfgText := strings.ReplaceAll(strings.ReplaceAll(strings.ReplaceAll(configTemplate, "ROOT", filepath.Join(w.root, "q")), "METRICKEYS", mk), "TAGTEMPLATE", tagT)
 		if p.reload != "" {
 			cfgText = strings.ReplaceAll(cfgText, "OUTPUTTYPE", "verifFluentd")
 		} else {
@@ -1005,6 +1026,17 @@ func scenarios(prop string) []*explore.Scenario {
 	// one key set, four chunks, acknowledger queue of one: the sender can be blocked handing a transmitted chunk over
 	w1 := params{name: "1conn-4rec-1key/ackwindow1/restart", conns: [][]op{{L("appA"), L("appA"), L("appA"), L("appA")}}, gens: 2, chunkRecs: 1, memCap: 4, ackWindow: 1, opt: full, flushAlt: false, advances: 1}
 	add(w1, 1, 2)
+	if prop == "C06" {
+		// routing and tagging in the composed agent with pooled-size records of two key sets: the pipeline's tag and ID must
+		// not depend on input buffers that are recycled later (one-variable tag template and two-part template)
+		out = nil
+		PA := func(app string) op { return op{kind: "line", app: app, pad: 1100} }
+		for _, tt := range []string{"$app", "t.$app"} {
+			r := params{name: "pooled-keys/tag=" + tt, conns: [][]op{{PA("appAA"), {kind: "settle"}, PA("appBB"), {kind: "settle"}, L("appAA"), L("appBB"), {kind: "settle"}, PA("appAA")}}, gens: 2, chunkRecs: 1, memCap: 2, opt: full, tagTemplate: tt, advances: 1}
+			add(r, 0, 1)
+		}
+		return out
+	}
 	if prop == "C17" {
 		out = nil
 		for _, v := range []string{"identical", "transform-changed", "yaml-error", "unknown-field", "keys-changed", "maxfields-changed"} {
